@@ -55,7 +55,8 @@ def ctor(qual, own_fields, invariant, **kw):
 for mod, cls in (("lhs_deme", "LHSDeme"), ("sobol_deme", "SobolDeme")):
     ctor(D + f"{mod}.{cls}.__init__", ["_pop_size", "sampler", "lower_bounds", "upper_bounds"],
          "SamplerDeme(self) and not engine_stop(self)",
-         requires=[cl("config_class", f"exact_type(deme_init_args.config, '{cls.replace('Deme', 'LevelConfig')}')")])
+         requires=[cl("config_class", f"exact_type(deme_init_args.config, '{cls.replace('Deme', 'LevelConfig')}') "
+                      "and deme_init_args.config.pop_size >= 1")])
 
 # ---- local search ---------------------------------------------------------------------------------------------------------
 fields("LocalOptimizationConfig", method="str", maxiter="int")
